@@ -201,6 +201,16 @@ def main():
                 # a repaired memory/storage inversion is judged like any small history: results linearizable, final memory = final storage
                 c.update(state=st, cid="fixed:%s:%s:%d" % (f["id"], st, r), group=c.get("group", "facts" if f.get("class") == "store" else "witness"))
                 cases.append(c)
+    # directed: a rule is removed while an event that found it is still being processed (the event parses and caches the rule after the
+    # search); LATER, after both have returned, a rule is added again under that id: the next event runs the rule that is stored now
+    for st in ("indexed", "linear"):
+        for r in range(3):
+            cases.append(W(st, group="readd", cid="readd:%s:%d" % (st, r), setup=[{"op": "addRule", "id": "r1", "rule": CRULE("v1")}],
+                           clients=[[{"op": "event", "event": {"a": 1}, "at_us": 0, "app": True, "delay": [{"op": "ProcessQuery", "when": "after", "us": 30000}]},
+                                     {"op": "event", "event": {"a": 1}, "at_us": 700000}],
+                                    [{"op": "remRule", "id": "r1", "at_us": 10000},
+                                     {"op": "addFact", "id": "fb", "fact": {"b": "x"}, "at_us": 300000},     # (the event that carries the App hook runs no script: its condition finds nothing yet)
+                                     {"op": "addRule", "id": "r1", "rule": CRULE("v2"), "at_us": 500000}]]))
     # one client is enough for concurrency inside a location: the actions of one event run concurrently and share the request's
     # context; with hooks installed (every location of a sys.System) each Env.AddFact runs a hook under the held state lock
     for st in ("indexed", "linear"):
@@ -368,6 +378,28 @@ def main():
         lin_stats["histories_in_fragment_of_linearizable_partial"] = sum(1 for c, r in lin_items if c.get("group") == "facts")
         lin_stats["histories_with_overlapping_same_id_writers"] = sum(1 for c, r in lin_items if g.overlapping_writers(c, r))
     ck.cov["linearizability"] = dict(lin_stats)
+
+    # ---- (7b) removed during an event, added again later
+    for c in cases:
+        if c.get("group") != "readd":
+            continue
+        r = results.get(c["cid"])
+        if not isinstance(r, dict) or "clients" not in r:
+            continue
+        try:
+            ev1, ev2 = r["clients"][0][0], r["clients"][0][1]
+            rem, add = r["clients"][1][0], r["clients"][1][2]
+        except (IndexError, KeyError, TypeError):
+            continue
+        ck.count({"readd": c["cid"]})
+        lin_stats["readd_cases"] += 1
+        if not (ev1["res"] < add["inv"] and rem["res"] < add["inv"] and add["res"] < ev2["inv"]) or add["out"].get("err") or rem["out"].get("err"):
+            lin_stats["readd_not_comparable"] += 1       # the machine was too slow for the planned gaps
+            continue
+        vals = ev2["out"].get("values")
+        if canon(vals) != canon(["v2"]):
+            ck.violation("a rule was removed while an event that had found it was being processed, and added again after both had returned; the next event (started after AddRule returned) "
+                         "ran %s instead of the stored rule's action [\"v2\"] (%s state)" % (canon(vals)[:120], c["state"]), {"case": c, "observed": r}, tag="readd")
 
     # ---- (8) known findings: print once, only if reproduced in this run
     for f in kf:
